@@ -8,6 +8,7 @@ import (
 	"math/rand"
 
 	"github.com/golang/geo/r3"
+	"github.com/golang/geo/s1"
 	"github.com/golang/geo/s2"
 
 	"verif/internal/gen"
@@ -26,6 +27,8 @@ func Run(m *mon.M) {
 	m.Require("cross.nearly_antipodal_first_edge", 10000)
 	m.Stream("cross", m.N(250000, 20000000), crossCase)
 	m.Stream("collinear", m.N(20000, 1000000), collinearCase)
+	m.Stream("equal-lengths", m.N(60000, 3000000), equalLengthsCase)
+	m.Stream("alongside", m.N(150000, 6000000), alongsideCase)
 	m.Stream("bisector", m.N(150000, 5000000), bisectorCase)
 }
 
@@ -173,6 +176,87 @@ func bisectorCase(c *mon.Case) {
 	}
 	c.Count("bisector.generated", 1)
 	check(c, a0, a1, b0, b1, 1, 1)
+}
+
+// equalLengthsCase: two crossing edges of (nearly) the same length - the diagonals of a lat-lng rectangle, or
+// one edge and its image under a rotation about the common midpoint. Their float64 squared lengths are equal
+// or differ in the last places, which is where the choice "which edge is the longer one" must not depend on
+// the argument order.
+func equalLengthsCase(c *mon.Case) {
+	r := c.R
+	var a0, a1, b0, b1 s2.Point
+	if r.Intn(2) == 0 {
+		lat := (r.Float64()*2 - 1) * 1.4
+		lng := (r.Float64()*2 - 1) * 3
+		dlat, dlng := gen.LogUniform(r, 1e-6, 0.5), gen.LogUniform(r, 1e-6, 1)
+		if r.Intn(3) == 0 { // centred on the equator or a round coordinate: exactly symmetric
+			lat = 0
+		}
+		ll := func(la, ln float64) s2.Point {
+			return s2.PointFromLatLng(s2.LatLng{Lat: s1.Angle(math.Max(-math.Pi/2, math.Min(math.Pi/2, la))), Lng: s1.Angle(math.Remainder(ln, 2*math.Pi))})
+		}
+		a0, a1 = ll(lat-dlat, lng-dlng), ll(lat+dlat, lng+dlng)
+		b0, b1 = ll(lat-dlat, lng+dlng), ll(lat+dlat, lng-dlng)
+	} else {
+		m := gen.Uniform(r)
+		if r.Intn(3) == 0 {
+			m = gen.Special(r)
+		}
+		t := m.Ortho()
+		half := gen.LogUniform(r, 1e-7, 1.2)
+		phi := gen.LogUniform(r, 1e-4, math.Pi/2)
+		t2 := rot(t, m.Vector, phi)
+		mk := func(t r3.Vector, d float64) s2.Point {
+			return s2.Point{Vector: m.Mul(math.Cos(d)).Add(t.Mul(math.Sin(d))).Normalize()}
+		}
+		a0, a1, b0, b1 = mk(t, -half), mk(t, half), mk(t2, -half), mk(t2, half)
+	}
+	// nudge one endpoint until the two squared lengths are within 2 ulps of each other
+	for try := 0; try < 40; try++ {
+		la, lb := a1.Sub(a0.Vector).Norm2(), b1.Sub(b0.Vector).Norm2()
+		if math.Abs(la-lb) <= 2*(math.Nextafter(la, 8)-la) {
+			if la == lb {
+				c.Count("equal_lengths.bit_equal", 1)
+			} else {
+				c.Count("equal_lengths.within_2_ulps", 1)
+			}
+			break
+		}
+		b1 = gen.NudgeUlps(r, b1, 1)
+	}
+	check(c, a0, a1, b0, b1, 1, 1)
+}
+
+// alongsideCase: a short edge that starts right beside a vertex of a longer edge, runs along it at a shallow
+// angle and crosses it just before its own far end (or the mirror image at the other vertex): the projections
+// of the two endpoints of one edge onto the other then have very different error terms.
+func alongsideCase(c *mon.Case) {
+	r := c.R
+	a0 := gen.Uniform(r)
+	la := gen.LogUniform(r, 1e-3, 1.5)
+	a1 := gen.Near(r, a0, la)
+	n := a0.PointCross(a1).Normalize()
+	s := la * gen.LogUniform(r, 1e-4, 0.9) // where the crossing is, measured from a0
+	phi := gen.LogUniform(r, 1e-7, 1e-2)   // crossing angle
+	delta := gen.LogUniform(r, 1e-4, 0.5)  // fraction of the short edge beyond the crossing
+	back := 1.0
+	if r.Intn(3) == 0 {
+		back = gen.LogUniform(r, 1e-3, 1) // the short edge may also start part of the way along
+	}
+	on := func(d float64) s2.Point { return gen.OnGreatCircle(r, a0, a1, d/la, 0) }
+	off := func(p s2.Point, h float64) s2.Point {
+		return s2.Point{Vector: p.Vector.Add(n.Mul(h)).Normalize()}
+	}
+	b0 := off(on(s*(1-back)), s*back*phi)
+	b1 := off(on(s*(1+delta)), -s*delta*phi)
+	if r.Intn(2) == 0 {
+		a0, a1 = a1, a0 // the same at the other vertex
+	}
+	if r.Intn(2) == 0 {
+		b0, b1 = b1, b0
+	}
+	c.Count("alongside.generated", 1)
+	check(c, a0, a1, b0, b1, phi, s*delta)
 }
 
 func collinearCase(c *mon.Case) {
